@@ -245,3 +245,89 @@ func zzHrrNeedsIssuedRequest() {
 	zzsymAssert(err != nil, "unissued_retry_request_never_validates")
 	zzsymCover("rejected")
 }
+
+// zzSparse: n bytes, fixed filler except arbitrary bytes at the given positions (long vectors whose every byte were a
+// solver variable would only slow the comparison down; the comparison under test treats all positions alike).
+func zzSparse(tag string, n int, fill byte, at ...int) []byte {
+	b := make([]byte, n)
+	for i := range b {
+		b[i] = fill
+	}
+	for _, p := range at {
+		b[p] = zzsymU8(tag)
+	}
+	return b
+}
+
+// The same DTLS 1.2 check with vectors beyond one-byte lengths: 130 cipher suites (260 bytes, arbitrary bytes at the
+// start, around the 255/256 boundary and at the end), a 32-byte session id, no extensions. The second ClientHello
+// echoes the issued cookie exactly; it is accepted only if every sampled suite byte (and the compression method)
+// equals the first ClientHello's - a comparison that stops at 255 bytes would accept a changed tail.
+//
+//symgo:entry covers=long_accepted,long_rejected
+func zzHvrEqualLongSuiteList() {
+	issued := zzsymBytes("issued", 3)
+	at := []int{0, 1, 128, 254, 255, 256, 257, 259}
+	mk := func(tag string, cookie []byte) *zzHello {
+		return zzBuild(zzsymBytes(tag+"_version", 2), zzsymBytes(tag+"_random", 32), zzSparse(tag+"_sid", 32, 7, 0, 31), cookie,
+			zzSparse(tag+"_suite_byte", 260, 0xc0, at...), zzsymBytes(tag+"_comp", 1), nil)
+	}
+	ch1, ch2 := mk("ch1", nil), mk("ch2", append([]byte{}, issued...))
+	s1, e1 := snapshotClientHello(ch1.body)
+	s2, e2 := snapshotClientHello(ch2.body)
+	zzsymAssert(zzsymAnd(e1 == nil, e2 == nil), "well_framed_hello_snapshots")
+	err := ValidateHelloVerifyRequestResponse(s1, s2, issued)
+	if err != nil {
+		zzsymAssert(!zzFieldsEqual(ch1, ch2), "hvr_long_identical_hello_accepted")
+		zzsymCover("long_rejected")
+		return
+	}
+	zzsymAssert(zzFieldsEqual(ch1, ch2), "hvr_long_fields_identical")
+	zzsymCover("long_accepted")
+}
+
+// The DTLS 1.3 check with an extension payload beyond one-byte lengths: ClientHello1 carries one extension of arbitrary
+// type with a 260-byte payload (arbitrary bytes at the start, around offsets 4..7 and 255/256, and at the end).
+// ClientHello2 carries the cookie extension with exactly the issued cookie and either (a) one extension of arbitrary
+// type with a 260-byte payload or (b) the same 268 bytes framed differently: an extension with a 4-byte payload
+// followed by one with a 253-byte payload (a list that serialises to the same bytes when lengths are written in one
+// byte is a DIFFERENT list). Accepted only in shape (a) with identical type and payload.
+//
+//symgo:entry covers=longext_accepted,longext_rejected,longext_split_rejected
+func zzHrrEqualLongExtension() {
+	issued := zzsymBytes("issued", 2)
+	req := RetryRequest{CipherSuiteID: zzsymU16("suite"), Cookie: issued, HasCookie: true, valid: true}
+	at := []int{0, 3, 4, 5, 6, 7, 254, 255, 256, 259}
+	legacy := func(tag string) (v, r, s, su, c []byte) {
+		return zzsymBytes(tag+"_version", 2), zzsymBytes(tag+"_random", 32), nil, zzsymBytes(tag+"_suites", 2), zzsymBytes(tag+"_comp", 1)
+	}
+	v1, r1, s1b, su1, c1 := legacy("ch1")
+	ch1 := zzBuild(v1, r1, s1b, nil, su1, c1, []zzExt{{typ: zzsymBytes("ch1_exttype", 2), data: zzSparse("ch1_ext_byte", 260, 0x11, at...)}})
+	cookieExt := zzExt{typ: []byte{0, 44}, data: append([]byte{0, 2}, issued...)}
+	v2, r2, s2b, su2, c2 := legacy("ch2")
+	split := zzsymChoice("ch2_split_framing", 2) == 1
+	var exts2 []zzExt
+	if split {
+		whole := zzSparse("ch2_ext_byte", 260, 0x11, at...)
+		// 4 payload bytes, then what used to be payload bytes 4..6 read as type(2) + length low byte, then the rest
+		exts2 = []zzExt{{typ: zzsymBytes("ch2_exttype", 2), data: whole[:4]}, {typ: whole[4:6], data: whole[7:]}, cookieExt}
+	} else {
+		exts2 = []zzExt{{typ: zzsymBytes("ch2_exttype", 2), data: zzSparse("ch2_ext_byte", 260, 0x11, at...)}, cookieExt}
+	}
+	ch2 := zzBuild(v2, r2, s2b, nil, su2, c2, exts2)
+	sn1, e1 := snapshotClientHello(ch1.body)
+	sn2, e2 := snapshotClientHello(ch2.body)
+	zzsymAssert(zzsymAnd(e1 == nil, e2 == nil), "well_framed_hello_snapshots")
+	err := ValidateClientHelloRetry(sn1, sn2, req)
+	if err != nil {
+		if split {
+			zzsymCover("longext_split_rejected")
+		} else {
+			zzsymCover("longext_rejected")
+		}
+		return
+	}
+	zzsymAssert(zzFieldsEqual(ch1, ch2), "hrr_long_legacy_fields_identical")
+	zzsymAssert(zzSameList(zzFilter(ch1.exts, true, false), zzFilter(ch2.exts, false, false)), "hrr_long_other_extensions_identical")
+	zzsymCover("longext_accepted")
+}
